@@ -37,6 +37,8 @@ impl TTLTicker {
     }
 
     pub(crate) fn put(self: &Arc<TTLTicker>, key_id: KeyId, expire_after: ExpireAfter) {
+        #[cfg(feature = "cached_verif")]
+        crate::cache::verif::point_need("ttl.put", || format!("ttl:{}", self.shard_index(&expire_after)));
         let shard_index = self.shard_index(&expire_after);
         self.shards[shard_index].write().insert(key_id, expire_after);
     }
@@ -44,15 +46,21 @@ impl TTLTicker {
     pub(crate) fn update(self: &Arc<TTLTicker>, key_id: KeyId, old_expiry: &ExpireAfter, new_expiry: ExpireAfter) {
         {
             let shard_index = self.shard_index(old_expiry);
+            #[cfg(feature = "cached_verif")]
+            crate::cache::verif::point_need("ttl.update.remove", || format!("ttl:{}", shard_index));
             self.shards[shard_index].write().remove(&key_id);
         }
         {
             let shard_index = self.shard_index(&new_expiry);
+            #[cfg(feature = "cached_verif")]
+            crate::cache::verif::point_need("ttl.update.insert", || format!("ttl:{}", shard_index));
             self.shards[shard_index].write().insert(key_id, new_expiry);
         }
     }
 
     pub(crate) fn delete(self: &Arc<TTLTicker>, key_id: &KeyId, expire_after: &ExpireAfter) {
+        #[cfg(feature = "cached_verif")]
+        crate::cache::verif::point_need("ttl.delete", || format!("ttl:{}", self.shard_index(expire_after)));
         let shard_index = self.shard_index(expire_after);
         self.shards[shard_index].write().remove(key_id);
     }
@@ -93,11 +101,19 @@ impl TTLTicker {
         let receiver = tick(tick_duration);
 
         thread::spawn(move || {
+            #[cfg(feature = "cached_verif")]
+            let _verif_registration = crate::cache::verif::register("sweeper");
             while let Ok(_instant) = receiver.recv() {
+                #[cfg(feature = "cached_verif")]
+                crate::cache::verif::point("sweep.begin");
                 let now = clock.now();
                 let shard_index = self.shard_index(&now);
+                #[cfg(feature = "cached_verif")]
+                crate::cache::verif::hold(|| format!("ttl:{}", shard_index));
 
                 self.shards[shard_index].write().retain(|key, expire_after| {
+                    #[cfg(feature = "cached_verif")]
+                    crate::cache::verif::point("sweep.entry");
                     let has_not_expired = now.le(expire_after);
                     if !has_not_expired {
                         debug!("Key with id {} has expired", key);
@@ -105,6 +121,10 @@ impl TTLTicker {
                     }
                     has_not_expired
                 });
+                #[cfg(feature = "cached_verif")]
+                crate::cache::verif::unhold(|| format!("ttl:{}", shard_index));
+                #[cfg(feature = "cached_verif")]
+                crate::cache::verif::point("sweep.end");
 
                 if !keep_running.load(Ordering::Acquire) {
                     info!("Shutting down TTLTicker");
@@ -113,6 +133,13 @@ impl TTLTicker {
                 }
             }
         });
+    }
+}
+
+#[cfg(feature = "cached_verif")]
+impl TTLTicker {
+    pub(crate) fn verif_shards(&self) -> Vec<Vec<(KeyId, ExpireAfter)>> {
+        self.shards.iter().map(|shard| shard.read().iter().map(|(key_id, expiry)| (*key_id, *expiry)).collect()).collect()
     }
 }
 
